@@ -253,6 +253,43 @@ theorem errActive_iff (sched : Nat → Ev) : ∀ k,
           have hjk : j ≠ k := by intro e; subst e; exact h1 hje
           exact ⟨j, by omega, hje, fun m a b => hq m a (by omega)⟩
 
+/-- **Never during an error handler, whatever mode the error came from.**  After a trapped error at step
+    `j` no trap is entered at any later step until RESUME (or RUN / CLEAR).  Nothing is assumed about the
+    run mode at step `j`: the error may come from a statement of the running program or from a
+    DIRECT-MODE statement issued after the program has ended with its ON ERROR and its traps still
+    armed (`endProg … errTrap, cont`: `trap_error` jumps into the program's handler and thereby
+    switches to run mode); occurrences recorded before or inside the handler wait all the same. -/
+theorem no_entry_until_resume (sched : Nat → Ev) (j k : Nat) (hj : sched j = .errTrap) (hjk : j < k)
+    (hq : ∀ m, j < m → m < k → sched m ≠ .resume ∧ sched m ≠ .runCmd ∧ sched m ≠ .clear) :
+    firesAt sched k = [] :=
+  never_during_error_handler sched k ((errActive_iff sched k).2 ⟨j, hjk, hj, hq⟩)
+
+/-- a variant of the code in which a trapped error suspends the traps only if a program was running
+    when it happened (`suspend_all = run mode at the time of the error`) -/
+def stepSuspendIfRunning (s : St) : Ev → St × List Nat
+  | .errTrap => ({ s with suspendAll := s.run }, [])
+  | e => step s e
+
+def firesOfList (f : St → Ev → St × List Nat) : St → List Ev → List (List Nat)
+  | _, [] => []
+  | s, e :: es => (f s e).2 :: firesOfList f (f s e).1 es
+
+/-- program arms a trap and ends; the event occurs; a direct-mode statement fails and enters the ON ERROR
+    handler (run mode on); dispatch inside the handler; RESUME back to the prompt; GOTO; dispatch -/
+def crossModeHistory : List Ev :=
+  [.runCmd, .setHandler 0 true, .on 0, .endProg, .occur 0, .errTrap, .cont, .dispatch [0], .resume, .endProg,
+   .cont, .dispatch [0]]
+
+/-- that variant violates `no_entry_until_resume` on a history that crosses the run-mode boundary: the
+    trap is entered inside the error handler … -/
+theorem suspend_if_running_counterexample :
+    firesOfList stepSuspendIfRunning St.init crossModeHistory =
+      [[], [], [], [], [], [], [], [0], [], [], [], []] := by decide
+
+/-- … whereas the code's machine holds the trap back until the program runs again after RESUME. -/
+theorem cross_mode_history_code :
+    firesOfList step St.init crossModeHistory = [[], [], [], [], [], [], [], [], [], [], [], [0]] := by decide
+
 /-- CLEAR (like RUN) drops every GOSUB frame, trap frames included: no later RETURN can belong to a
     handler entered before it; all traps are OFF, nothing is remembered, no error handler is active. -/
 theorem clear_resets (sched : Nat → Ev) (k : Nat) (h : sched k = .clear ∨ sched k = .runCmd) :
